@@ -242,3 +242,19 @@ func pickRunTo(t *simrt.Tape, w *WF) {
 }
 
 var _ = fmt.Sprint
+
+// ExportCase generates a workflow for the native fidelity run (shell-command
+// processes, sources, parameters, taggers, joins; no Go-function tasks, no
+// absolute paths) together with the reference result.
+func ExportCase(t *simrt.Tape) (*WF, map[string]string, []string) {
+	p := Profile{MaxProcs: 5, MaxItems: 4, Bufsizes: []int{0, 1, 2, 3}, MaxSlots: 6,
+		Params: true, MultiOut: true, FanIn: true, FanOut: true, NoPort: true,
+		Subdirs: true, Cores: true, ParamSrc: true, TwoSources: true, Zip: true, Taggers: true, Joins: true, Extras: true}
+	w := Generate(t, p)
+	ex := Eval(w)
+	files := map[string]string{}
+	for k, v := range ex.Files {
+		files[k] = string(v)
+	}
+	return w, files, ex.TaskKeys()
+}
